@@ -169,14 +169,18 @@ def scheduleTasksSt (rv : RvOf) (tasks fn : Nat) : List Nat → Nat → Except F
         | .ok (tl, sf2) => .ok (evs ++ tl, sf2)
     else scheduleTasksSt rv tasks fn rest sf
 
-/-- the task bitmap `mframe_schedule()` works with at tick `fn`:
+/-- "nothing is in the way" at tick `fn`:
     `fn_diff = safe_fn - current_time.fn` (`uint32_t` difference as `int`);
-    `if ((fn_diff <= 0) || (fn_diff >= (GSM_MAX_FN>>1)) || (safe_fn >= GSM_MAX_FN)) tasks = tasks_tgt;`
-    `else tasks &= tasks_tgt;` -/
-def latch (s : MfState) (fn : Nat) : Nat :=
+    `(fn_diff <= 0) || (fn_diff >= (GSM_MAX_FN>>1)) || (safe_fn >= GSM_MAX_FN)` -/
+def nothingInTheWay (s : MfState) (fn : Nat) : Bool :=
   let fnDiff := toInt32 (u32 s.safeFn + 4294967296 - u32 fn)
-  if fnDiff ≤ 0 ∨ fnDiff ≥ ((FwMframe.GSM_MAX_FN >>> 1 : Nat) : Int) ∨ s.safeFn ≥ FwMframe.GSM_MAX_FN
-  then s.tasksTgt else s.tasks &&& s.tasksTgt
+  decide (fnDiff ≤ 0) || decide (fnDiff ≥ ((FwMframe.GSM_MAX_FN >>> 1 : Nat) : Int)) ||
+    decide (s.safeFn ≥ FwMframe.GSM_MAX_FN)
+
+/-- the task bitmap `mframe_schedule()` works with at tick `fn`:
+    `if (nothing in the way) tasks = tasks_tgt; else tasks &= tasks_tgt;` -/
+def latch (s : MfState) (fn : Nat) : Nat :=
+  if nothingInTheWay s fn then s.tasksTgt else s.tasks &&& s.tasksTgt
 
 /-- `mframe_schedule()` on the scheduler state at `l1s.current_time.fn = fn`, the loop
     `for (i = 0; i < 32; i++)` running over `bits` -/
